@@ -45,6 +45,7 @@ func VerifLineSpaces(ordered []TextFragment, dir Direction) []bool {
 		out = append(out, e.shouldInsertSpaceSmart(ordered[i], ordered[i+1], d, m))
 	}
 	return out
+}
 
 // VerifXObjectState reports the extractor's Form XObject accounting after a call of
 // Extract: the content charged so far (xobjectBytes), the current nesting depth
